@@ -253,6 +253,101 @@ def make_direct(buffered):
     return h
 
 
+def par_body(n, bits):
+    """ddmin through _check_par (two jobs): the process may be interrupted
+    between any two steps of the pool (task pulled / executed / result
+    delivered) and between file-system operations.  Whenever it is, the
+    output file holds the input that was adopted last (or, while its
+    rewrite is in progress, the one before)."""
+    from ddsmt import nodeio, strategy_ddmin
+    from vlib.stubs.strat import Decider
+    from harness import strat_common as SC
+    d = Decider(10 ** 6, replay=bits)
+    env = SC.setup(d, 'ddmin', 2, 6, 'h', 'erase', oracle='req',
+                   maxwrites=60)
+    recorded = nodeio.write_smtlib_to_file
+    state = {'bad': None, 'writing': False, 'adopted': [], 'written': []}
+
+    def observer(fs):
+        pass
+
+    fs = FakeFS(n, observer)
+    true_write = SC_REAL_WRITE[0]
+
+    def write(filename, exprs):
+        state['writing'] = True
+        true_write(OUT, exprs)
+        state['writing'] = False
+        state['written'].append(nodeio.write_smtlib_to_str(exprs))
+
+    real_update = strategy_ddmin.TaskGenerator.update
+
+    def update(self, exprs):
+        state['adopted'].append(nodeio.write_smtlib_to_str(exprs))
+        return real_update(self, exprs)
+
+    def on_step(step):
+        fs.tick('pool ' + step)
+        # between two pool steps no rewrite is in progress: the file shows
+        # the input adopted last
+        if state['adopted'] and not state['bad']:
+            cur = fs.files.get(OUT)
+            if cur != state['adopted'][-1]:
+                state['bad'] = (f'interruptible instant (pool step {step}): '
+                                f'the last adopted input is '
+                                f'{state["adopted"][-1]!r} but the output file '
+                                f'holds {cur!r}')
+
+    env.mp.on_step = on_step
+    nodeio.write_smtlib_to_file = write
+    strategy_ddmin.TaskGenerator.update = update
+    saved = {'open': getattr(nodeio, 'open', None),
+             'os': getattr(nodeio, 'os', None)}
+    nodeio.open = fs.open
+    nodeio.os = FakeOS(fs)
+    try:
+        try:
+            SC.run_strategy(env, 'ddmin')
+        except KeyboardInterrupt:
+            pass
+        except SC.Runaway:
+            return 'skip'
+    finally:
+        nodeio.write_smtlib_to_file = recorded
+        strategy_ddmin.TaskGenerator.update = real_update
+        env.restore()
+        for k, v in saved.items():
+            if v is None:
+                if hasattr(nodeio, k):
+                    delattr(nodeio, k)
+            else:
+                setattr(nodeio, k, v)
+    if state['bad']:
+        return state['bad']
+    if fs.crashed and state['adopted'] and OUT in fs.files:
+        if fs.files[OUT] not in state['adopted'][-2:]:
+            return (f'after an interrupt the output file holds '
+                    f'{fs.files[OUT]!r}, the last adopted inputs are '
+                    f'{state["adopted"][-2:]!r}')
+    return None
+
+
+def make_par(bits):
+    def h(n: int):
+        from crosshair.tracers import NoTracing
+        assume(0 <= n <= 600)
+        with NoTracing():
+            r = par_body(n, bits)
+        assume(r != 'skip')
+        if r:
+            raise Violation(r)
+    return h
+
+
+PAR_BITS = ([1, 0, 1, 0, 0, 0], [0, 1, 0, 1, 0, 0, 1, 0, 1, 1],
+            [1, 1, 0, 1, 1, 0, 1, 1, 1, 0, 1], [0, 0, 1, 0, 0, 0, 0, 1, 1])
+
+
 def strategy_body(n, strategy, bits):
     """The write sites of the real strategies: run with a fixed oracle that
     accepts candidates keeping '<', crash before FS step n."""
@@ -362,7 +457,94 @@ def partitions(tier):
                           'fn': make_strategy(st, bits), 'setup': _setup,
                           'budget_s': 160,
                           'bounds': {'strategy': st, 'oracle_bits': bits}})
+    for k, bits in enumerate(PAR_BITS):
+        parts.append({'name': f'par_{k}', 'fn': make_par(list(bits)),
+                      'setup': _setup, 'budget_s': 160,
+                      'bounds': {'strategy': 'ddmin -j2 (_check_par)',
+                                 'choice_bits': list(bits)}})
+    parts.append({'name': 'sigint', 'kind': 'native', 'run': run_sigint,
+                  'budget_s': 300})
     return parts
+
+
+def run_sigint():
+    """Auxiliary (real processes): bin/ddsmt is started on a real input with
+    a shell script as command and interrupted with SIGINT at several delays.
+    Afterwards: exit status 1, the input file is unchanged, the output file
+    (if present) is a complete accepted input, and no ddsmt-* directory is
+    left in TMPDIR."""
+    import os
+    import shutil
+    import signal
+    import subprocess
+    import sys
+    import tempfile
+    import time
+    t0 = time.time()
+    repo = os.environ.get('VERIF_REPO', '/repo')
+    work = tempfile.mkdtemp(prefix='verif-c06-')
+    bad = None
+    n = 0
+    try:
+        tmpd = os.path.join(work, 'tmp')
+        os.mkdir(tmpd)
+        solver = os.path.join(work, 'solver.sh')
+        with open(solver, 'w') as f:
+            f.write('#!/bin/sh\nsleep 0.05\n'
+                    'if grep -q "assert (> x 1)" "$1"; then echo bug; exit 1; '
+                    'fi\necho ok\nexit 0\n')
+        os.chmod(solver, 0o755)
+        text = ('(declare-const x Int)\n(declare-const y Int)\n'
+                '(assert (> x 1))\n(assert (< y 5))\n(assert (= x y))\n'
+                '(check-sat)\n')
+        for delay in (0.6, 1.0, 1.5, 2.2):
+            n += 1
+            inp = os.path.join(work, f'in{n}.smt2')
+            out = os.path.join(work, f'out{n}.smt2')
+            with open(inp, 'w') as f:
+                f.write(text)
+            env = dict(os.environ)
+            env['TMPDIR'] = tmpd
+            p = subprocess.Popen(
+                ['/venv/bin/python', os.path.join(repo, 'bin', 'ddsmt'), '-j',
+                 '2', inp, out, solver], env=env, stdout=subprocess.PIPE,
+                stderr=subprocess.PIPE, cwd=work)
+            time.sleep(delay)
+            p.send_signal(signal.SIGINT)
+            try:
+                so, se = p.communicate(timeout=60)
+            except subprocess.TimeoutExpired:
+                p.kill()
+                bad = bad or f'ddsmt did not stop within 60 s after SIGINT'
+                continue
+            finished = b'interrupted' not in so
+            if not finished and p.returncode != 1:
+                bad = bad or (f'exit status {p.returncode} after an interrupt '
+                              f'(delay {delay}s)')
+            if b'Traceback' in se and b'KeyboardInterrupt' not in se:
+                bad = bad or f'traceback after interrupt: {se[-300:]!r}'
+            if open(inp).read() != text:
+                bad = bad or 'input file modified'
+            if os.path.exists(out):
+                got = open(out).read()
+                if 'assert (> x 1)' not in got or not got.endswith('\n') \
+                        or got.count('(') != got.count(')'):
+                    bad = bad or (f'output file after interrupt is not a '
+                                  f'complete accepted input: {got!r}')
+            time.sleep(0.3)
+            left = [x for x in os.listdir(tmpd) if x.startswith('ddsmt-')]
+            if left:
+                bad = bad or (f'temporary directory left behind after an '
+                              f'interrupt: {left}')
+    finally:
+        shutil.rmtree(work, ignore_errors=True)
+    return {'status': 'VIOLATED' if bad else 'CONFIRMED',
+            'cex': {'sigint': True} if bad else None,
+            'exc': {'type': 'Violation', 'msg': bad} if bad else None,
+            'paths': n, 'paths_ok': n, 'samples': [{'delays': [0.6, 1.0, 1.5, 2.2]}],
+            'solver_checks': 0, 'solver_seconds': 0.0,
+            'wall_s': round(time.time() - t0, 2),
+            'note': 'real ddsmt processes interrupted with SIGINT (auxiliary)'}
 
 
 def replay(part, cex):
@@ -370,6 +552,12 @@ def replay(part, cex):
     try:
         if part == 'direct':
             return direct_body(cex['n'], cex['fmt'])
+        if part.startswith('par_'):
+            r = par_body(cex['n'], list(PAR_BITS[int(part[4:])]))
+            return None if r == 'skip' else r
+        if part == 'sigint':
+            r = run_sigint()
+            return r['exc']['msg'] if r['exc'] else None
         if part == 'directbuf':
             return direct_body(cex['n'], cex['fmt'], True)
         st, k = part.split('_')
